@@ -89,8 +89,13 @@ def classify(call):
             return "rename", [call.func.value, call.args[0]], "Path." + attr
     if name in ("os.remove", "os.unlink", "shutil.rmtree"):
         return "destroy", [kwarg(call, "path", 0)], name
-    if name in ("os.rename", "os.replace", "shutil.move"):
+    if name in ("os.rename", "os.replace"):
         return "rename", [kwarg(call, "src", 0), kwarg(call, "dst", 1)], name
+    if name in ("shutil.move",):
+        # not atomic: when the rename fails it falls back to copying into
+        # the destination – a partial file under the final name
+        return "write", [kwarg(call, "dst", 1)], name + " (copies when the " \
+            "rename fails)"
     if name in ("shutil.copy", "shutil.copy2", "shutil.copyfile"):
         return "write", [kwarg(call, "dst", 1)], name
     return None
@@ -142,6 +147,14 @@ def analyse_function(ctx, repo, rel, func, seed, done, is_setup=False):
     if key in done:
         return
     done.add(key)
+    # an ExitStack that only enters contexts reads like the `with` it
+    # stands for
+    from ..normalize import _cp, exitstack_to_with
+    from ..core import link
+    orig = func
+    func = exitstack_to_with(_cp(orig))
+    link(func)
+    func.parent = getattr(orig, "parent", None)
     roles = Roles(func, seed, TUPLE_CALLS)
     cfg = CFG(func)
     n_nodes, n_edges, n_x = cfg.count_paths_kinds()
